@@ -119,7 +119,7 @@ Apply(st, c, nv) ==
 (* by, per resource, the log entries after that position, in order, none     *)
 (* skipped, none repeated.  It never crosses a restore entry (the watch is   *)
 (* closed by a restore).                                                     *)
-WatchTake(st, q) == [q |-> q, cur |-> [k \in Keys(st) |-> Len(st.log[k])], ep |-> st.ep]
+WatchTake(st, q) == [q |-> q, cur |-> [k \in Keys(st) |-> IF Matches(q, k) THEN Len(st.log[k]) ELSE 0], ep |-> st.ep]
 
 HasNext(st, w, k) == /\ Matches(w.q, k) /\ w.cur[k] < Len(st.log[k])
                      /\ st.log[k][w.cur[k] + 1].kind # "restore"
